@@ -36,6 +36,14 @@ func main() {
 					tg.exportedOnly = true
 					continue
 				}
+				if strings.HasPrefix(c, "vars=") {
+					tg.vars = strings.Split(strings.TrimPrefix(c, "vars="), ",")
+					continue
+				}
+				if strings.HasPrefix(c, "mu=") {
+					tg.muName = strings.TrimPrefix(c, "mu=")
+					continue
+				}
 				if strings.HasPrefix(c, "deep=") {
 					tg.deep[strings.TrimPrefix(c, "deep=")] = true
 					continue
